@@ -340,7 +340,9 @@ class SignatureArguments(LoggerProperty):
         if default == inspect_empty:
             default = param.default
             if default == inspect_empty:
-                if is_optional(annotation):
+                if is_optional(annotation) or (
+                    get_typehint_origin(annotation) == Union and NoneType in annotation.__args__
+                ):
                     default = None
                 elif get_typehint_origin(annotation) in not_required_types:
                     default = SUPPRESS
